@@ -316,6 +316,9 @@ func runC07(c *core.Ctx, ck *Check) {
 			if n%4 == 3 {
 				ln = 7 + r.IntN(58)
 			}
+			if n == 2 || n == 9 { // beyond the quantified 1..64: chunked / parallel / buffered code paths
+				ln = []int{65, 66, 67, 100, 101, 127, 129, 200, 255, 257}[r.IntN(10)]
+			}
 			list := make([]string, 0, ln)
 			for len(list) < ln {
 				s := p.Strs[r.IntN(len(p.Strs))]
@@ -370,7 +373,7 @@ func runC07(c *core.Ctx, ck *Check) {
 					w.NT(core.Hash64(e.Name, strings.Join(q, "\x00")))
 				}
 				rep(evalC07(c, e, "sort", q))
-				if pi < c.Scale(1, 3) && n < c.Scale(6, 20) {
+				if pi < c.Scale(1, 3) && n < c.Scale(10, 20) {
 					w.Count("evaluations", 1)
 					w.Count("events:cli-sort", 1)
 					rep(evalC07(c, e, "cli-sort", q))
@@ -665,8 +668,19 @@ func runC15(c *core.Ctx, ck *Check) {
 						argv = append(argv, rng(), ver())
 					}
 				case "sort":
-					for n := r.IntN(6); n > 0; n-- {
-						argv = append(argv, ver())
+					cnt := r.IntN(6)
+					if r.IntN(12) == 0 {
+						cnt = []int{63, 64, 65, 66, 67, 101, 130}[r.IntN(7)]
+					}
+					for n := cnt; n > 0; n-- {
+						if cnt > 6 {
+							argv = append(argv, gen.One(gname, r)) // long lists: valid elements, the last one below may not be
+						} else {
+							argv = append(argv, ver())
+						}
+					}
+					if cnt > 6 && r.IntN(3) == 0 {
+						argv = append(argv, "not a version @@")
 					}
 					// an element whose text needs escaping when quoted (control characters, quotes, backslash,
 					// surrounding blanks), if this ecosystem's parser accepts such a spelling
